@@ -28,6 +28,11 @@ def run(ctx):
     tp.compact_bool_element(rep, 'R01.b', prog, cg)
     import c03
     c03.ttype_byte_conversion(rep, 'R01.t', prog)
+    # reader guards are exactly as wide as the read needs (a value ending at the end of the buffer is complete)
+    import audit
+    import scopes
+    seen_ = cg.reachable(scopes.thrift_decoder_roots(prog), stop=scopes.is_unsafe_codec)
+    audit.tight_guards(rep, 'R01.g', sorted([b for b, _ in seen_.values() if b.crate == 'pilota' and not scopes.is_unsafe_codec(b)], key=lambda b: b.id))
     # the unchecked writer on a linked buffer: pending bytes are committed before a payload is linked in (zero-copy on)
     import unsafe_codec
     unsafe_codec.zero_copy_sites(rep, 'R01.z', prog, cg)
